@@ -425,6 +425,25 @@ def gen_zone_history(rnd, sid, focus="C06"):
     return s
 
 
+def gen_zone_tie(sid):
+    """known finding C06 zone-tie: the local date goes back and the next two rotations happen within one tick of the
+    file system's clock - the two rotated files have the same modification time, the names (the tie-break) say the
+    newer one is older, retention deletes the file it has just produced"""
+    import random
+    rnd = random.Random(7)
+    s = Scenario(sid, "app.log", "rot", 12, 2, 0, now=(2, 0))
+    g = HistoryGen(rnd, s)
+    g.op_ctor()
+    g.op_send(11, fancy=False)
+    g.op_zone(-1)
+    g.op_send(11, fancy=False)     # rotates r1 into <day 2>.1
+    g.op_send(11, fancy=False)     # same tick: rotates r2 into <day 1>.1 - and removes it
+    g.op_send(11, fancy=False)
+    g.op_destroy()
+    s.tags.add("known:zone-tie")
+    return s
+
+
 def gen_blocked_slot(rnd, sid):
     """a directory occupies the name the next rotation would use: QFile::rename refuses ("destination
     exists"), the sink must keep appending to the active file and lose nothing"""
